@@ -72,6 +72,9 @@ func runBehaviour(ctx *Ctx, b behaviour) {
 	if b.K == 0 {
 		b.K = 1
 	}
+	if b.Respell && b.KnownMismatch == nil {
+		b.KnownMismatch = respelledFormatEscape
+	}
 	var listed []string
 	for _, d := range b.Devs {
 		if ctx.Run.Listed(d) {
@@ -481,4 +484,13 @@ func jsonvDiffMapped(want, got any, f func(path string, w any) any) string {
 		return f(path, v)
 	}
 	return jsonv.Diff("$", mp("$", want), got)
+}
+
+// respelledFormatEscape: date / time / date-time values written with JSON escapes - the wrapper types (and time.Time itself) cut the quotes
+// off the raw bytes (listed finding FORMAT_STRING_ESCAPES_REJECTED).
+func respelledFormatEscape(sc *SCase, d *refmodel.Doc, o *drv.Obs) string {
+	if strings.HasSuffix(d.Class, "/respelled") && strings.Contains(o.Err, "parsing time") && strings.Contains(o.Err, `\\u00`) {
+		return "FORMAT_STRING_ESCAPES_REJECTED"
+	}
+	return ""
 }
